@@ -1176,7 +1176,13 @@ impl TensorStore {
         };
 
         let path = path.as_ref();
-        let temp_path = path.with_extension("tmp");
+        // Sibling temp file: the whole file name plus ".tmp", so it can never be the
+        // target itself (with_extension("tmp") is the target when it already ends in .tmp)
+        let temp_path = {
+            let mut name = path.as_os_str().to_owned();
+            name.push(".tmp");
+            std::path::PathBuf::from(name)
+        };
 
         let keys = self.router.scan("");
         let mut entries = Vec::with_capacity(keys.len());
